@@ -4,7 +4,7 @@
 -/
 import GfsModel.Seqls
 
-namespace Gfs.Proofs
+namespace Gfs.Proofs.SeqlsP
 open Gfs.Seqls
 
 /- helpers ------------------------------------------------------------------ -/
@@ -411,4 +411,4 @@ theorem bad_item_isolated (seqs dirs : List Item) (bad : Item) (hb : bad.result 
   · simp [expectedLines_append, expectedLines_cons, hb]
   · simp [expectedLines_append, expectedLines_cons, hb]
 
-end Gfs.Proofs
+end Gfs.Proofs.SeqlsP
